@@ -4,6 +4,7 @@ CONSTANTS
   MaxD = 2
   Depth = 2
   Rich = TRUE
+  Shaped = TRUE
   FormLevel = 2
 INVARIANT InvCoherent
 PROPERTY RefusalIsNoOp
